@@ -82,6 +82,7 @@ func checkC16(c *core.Ctx) {
 	r4 := c.Rule("R16.4", "T", "sends are blocking selects with ctx.Done(); every cycle through the read re-tests the context")
 	r5 := c.Rule("R16.5", "T", "NextPacket: error returned, bytes/decoder/options passed through, CaptureInfo stored, Truncated from CaptureLength < Length")
 	concatAdvance(c, c.Rule("R16.8", "T", "the concatenated source list is advanced relative to its current contents"))
+	truncatedOnlyRaised(c, c.Rule("R16.9", "T", "NextPacket only raises the Truncated flag (= R3.7)"))
 	r7 := c.Rule("R16.7", "T", "end-of-input from a PacketDataSource is recognised with errors.Is (sources may wrap io.EOF), never by comparing the error value with io.EOF")
 	{
 		n := 0
